@@ -188,6 +188,30 @@ def run_job(job):
                 if len(samples) < 1 and key is not None:
                     samples.append({"suite": su, "config": ci, "attempt": k, "fake_response": fr.hex()[:96] + "...", "masking_key_is_recorded_draw": True,
                                     "beta_equal_on": sorted(betas), "client_outcome": cf.err})
+            # "for all requests": well-formed requests built from public values must be answered alike with and without a record
+            cpk_user = bx(reg.rupl)[:sz.npk]
+            c3 = s.cmd("clogin_start", rng=rng, pw=b"x", out_state="e.cl", out_msg="e.cq")
+            other = bx(c3.msg)
+            crafted = {"client_e_pk := the user's registered public key": creq[:sz.noe + 32] + cpk_user,
+                       "client_e_pk := the server's public key": creq[:sz.noe + 32] + spk,
+                       "client_e_pk := the other registered user's key": creq[:sz.noe + 32] + bx(reg2.rupl)[:sz.npk],
+                       "blinded element of another request, own key share": other[:sz.noe] + creq[sz.noe:],
+                       "all-zero client nonce": creq[:sz.noe] + bytes(32) + creq[sz.noe + 32:],
+                       "client nonce := 0xff..": creq[:sz.noe] + b"\xff" * 32 + creq[sz.noe + 32:]}
+            for what, rb in crafted.items():
+                d = s.de("creq", rb, out="k.cq")
+                evals += 1
+                if not d.ok:
+                    V("control: crafted request does not decode", "%s: %s" % (what, d.err))
+                    continue
+                outs = {}
+                for lab, fh, cid in (("registered user", "g.file", cred), ("unregistered user", None, ghost)):
+                    r = s.cmd("slogin_start", rng=rng, setup="S", file=fh, req="k.cq", cred=cid, ctx=ctx, id_u=idu, id_s=ids, out_state="k.sl", out_msg="k.cr")
+                    evals += 1
+                    outs[lab] = ("ok", len(r.msg) // 2) if r.ok else ("err", r.get("err"))
+                stats["crafted_requests"] = stats.get("crafted_requests", 0) + 1
+                if outs["registered user"] != outs["unregistered user"] or outs["registered user"][0] != "ok":
+                    V("a well-formed request is answered differently for a registered and an unregistered user", "%s: %s" % (what, outs))
             # (3) variability over the attempts with the same request and identifier
             for nm in ("masking_nonce", "masked", "server_nonce", "server_e_pk", "server_mac"):
                 vals = [f_[nm] for f_ in fakes]
